@@ -48,6 +48,12 @@ class FaultRig(ClientRig):
                     bad = sx.fresh_int("badcrc", 0, 0xFFFF)
                     sx.assume(bad != (f[1] | (f[2] << 8)))
                     r = sx.mkbytes([f[0], bad & 0xFF, bad >> 8] + list(f[3:]))
+                elif self.fault[0] == "endn":
+                    # the end frame's count of unused bytes is corrupted (a different legal count)
+                    self.injected = True
+                    n2 = sx.fresh_int("badn", 0, 7)
+                    sx.assume(n2 != ((f[0] >> 2) & 7))
+                    r = sx.mkbytes([(f[0] & 0xE3) | (n2 << 2)] + list(f[1:]))
                 elif self.fault[0] == "end":
                     self.injected = True
                     cmd = sx.fresh_byte("badend")
@@ -154,7 +160,7 @@ def upload(n, crc, sized, how, fault=None):
     else:
         # a disturbed transfer that returns normally must still return exactly the value
         sx.prove(same, "returned data differs from the server's value", tag + "/wrong-data")
-        if fault[0] in ("crc", "end", "flip"):
+        if fault[0] in ("crc", "end", "flip", "endn"):
             # nothing can repair a wrong checksum, a corrupted segment or a malformed end frame
             sx.fail("a %s fault did not end in an SDO error" % fault[0], tag + "/not-detected")
         sx.reach("returned-after-fault")
